@@ -101,6 +101,18 @@ def install_wrappers(lab):
     model.Scenario.run = scen_run
 
 
+class ListHandler(logging.Handler):
+    def __init__(self, sink):
+        logging.Handler.__init__(self)
+        self.sink = sink
+
+    def emit(self, record):
+        try:
+            self.sink.append(record.getMessage())
+        except Exception:
+            pass
+
+
 def run_case(lab, mon, case, rng, sample=False):
     from behave.formatter.plain import PlainFormatter
     from behave.formatter.base import StreamOpener
@@ -150,6 +162,9 @@ def run_case(lab, mon, case, rng, sample=False):
 
     root_level = case.get("root_level")
     runtime_switch = bool(case.get("runtime_switch"))
+    n_user_handlers = int(case.get("user_root_handlers") or 0)
+    user_handlers, user_records = [], []
+    clear_handlers = "--logging-clear-handlers" in args
     # the level log capture works with: --logging-level (default INFO), or what user code asks for with the documented
     # context.config.setup_logging(level) from a hook
     eff_level = logging.INFO
@@ -163,6 +178,12 @@ def run_case(lab, mon, case, rng, sample=False):
     uncaptured = set()
 
     def hook_plugin(state, context, name, elem, tag):
+        if name == "before_all" and n_user_handlers:
+            # user code that configures logging itself: several handlers on the root logger (console + file, ...)
+            for _k in range(n_user_handlers):
+                h = ListHandler(user_records)
+                user_handlers.append(h)
+                logging.getLogger().addHandler(h)
         if name == "before_all" and hook_level is not None:
             context.config.setup_logging(level=hook_level)
         if name == "before_all" and root_level is not None:
@@ -182,9 +203,11 @@ def run_case(lab, mon, case, rng, sample=False):
                 raise KeyboardInterrupt()
 
     fbuf = io.StringIO()
+    fbuf2 = io.StringIO()
 
     def formatters(config, st):
-        return [PlainFormatter(StreamOpener(stream=fbuf), config)]
+        from behave.formatter.progress import StepProgressFormatter
+        return [PlainFormatter(StreamOpener(stream=fbuf), config), StepProgressFormatter(StreamOpener(stream=fbuf2), config)]
 
     def pre_run(st):
         lab._state = st
@@ -231,6 +254,12 @@ def run_case(lab, mon, case, rng, sample=False):
             want = [(k, sid, sc, chan) for (k, sid, sc) in printed]
             mon.check("passthrough.markers_arrive", marks == want,
                       lambda: W(channel=chan, got=marks[:8], want=want[:8], n_got=len(marks), n_want=len(want)))
+    if n_user_handlers and cap_log and clear_handlers and not runtime_switch:
+        # --logging-clear-handlers: while a scenario is captured ALL handlers of the root logger are set aside, so nothing a
+        # step or step hook logs reaches the user's own handlers
+        got_user = [m for m in MARK.findall("\n".join(user_records)) if m[0] in "MBA"]
+        mon.check("capture.nothing_reaches_user_log_handlers", not got_user,
+                  lambda: W(user_handlers=n_user_handlers, leaked=got_user[:5]))
     if cap_log and cap_err:
         marks = [m for m in MARK.findall(real_err) if m[3] == "log"]
         mon.check("capture.nothing_reaches_real_stream", not marks, lambda: W(channel="log->stderr", leaked=marks[:5]))
@@ -268,6 +297,11 @@ def run_case(lab, mon, case, rng, sample=False):
         passing = set(n for n, st in obs.elem_status.items() if obs.elem_kind.get(n) == "scenario" and st == "passed")
         bad = [m for m in fmarks if m[2] in passing and ((m[3] == "out" and cap_out) or (m[3] == "err" and cap_err) or (m[3] == "log" and cap_log))]
         mon.check("formatter.no_output_of_passing_scenarios", not bad, lambda: W(shown=bad[:5]))
+        # the step-progress formatter prints the captured output of a failing step in its problem block: once
+        marks2 = MARK.findall(fbuf2.getvalue())
+        twice = sorted(set(m for m in marks2 if marks2.count(m) > 1))
+        bad2 = [m for m in marks2 if m[2] in passing and ((m[3] == "out" and cap_out) or (m[3] == "err" and cap_err) or (m[3] == "log" and cap_log))]
+        mon.check("formatter.captured_output_shown_once", not twice and not bad2, lambda: W(formatter="progress2", repeated=twice[:5], of_passing=bad2[:5]))
     if sample:
         mon.sample({"features": RB.case_texts(case), "args": args, "switches": sw, "markers_produced": len(printed),
                     "real_stdout_head": real_out[:200], "real_stderr_head": real_err[:200]})
@@ -338,6 +372,11 @@ def run(spec, mon):
         case["nested"] = nested
         if (i // 8) % 2 == 0:       # (independent of the switch combination, which cycles with i % 8)
             case["root_level"] = rng.choice([logging.NOTSET, logging.DEBUG, logging.INFO, logging.WARNING, logging.ERROR])
+        if i % 5 == 2:
+            case["user_root_handlers"] = rng.choice([2, 3, 4])
+            if rng.random() < 0.6:
+                case["args"] = case["args"] + ["--logging-clear-handlers"]
+            mon.seen("user_root_handlers", "%d%s" % (case["user_root_handlers"], "+clear" if "--logging-clear-handlers" in case["args"] else ""))
         if i % 9 == 4:
             case["setup_logging_level"] = rng.choice([logging.DEBUG, logging.DEBUG, logging.WARNING])
             mon.seen("setup_logging_from_hook", logging.getLevelName(case["setup_logging_level"]))
